@@ -1,7 +1,13 @@
 // SPDX-License-Identifier: MIT
 pragma solidity 0.8.17;
 
-// A long else-if chain: the syntax tree is as deep as the chain is long (generated: 400 levels).
+// A long else-if chain: the syntax tree is as deep as the chain is long (generated: 400 levels); items before and
+// after it: whatever a walk keeps about its depth ends with the item.
+contract Before {
+    uint256 public seen;
+    function note(uint256 a) public { seen = a * 2; seen++; }
+}
+
 contract DeepChain {
     uint256 public acc;
 
@@ -811,3 +817,15 @@ contract DeepChain {
         }
     }
 }
+
+contract DeepSum {
+    uint256 public total;
+    function sum(uint256 a) public { total = a + a + a + a + a + a + a + a + a + a + a + a + a + a + a + a + a + a + a + a + a + a + a + a + a + a + a + a + a + a + a + a + a + a + a + a + a + a + a + a + a + a + a + a + a + a + a + a + a + a + a + a + a + a + a + a + a + a + a + a + a + a + a + a + a + a + a + a + a + a + a + a + a + a + a + a + a + a + a + a + a + a + a + a + a + a + a + a + a + a + a + a + a + a + a + a + a + a + a + a + a + a + a + a + a + a + a + a + a + a + a + a + a + a + a + a + a + a + a + a + a + a + a + a + a + a + a + a + a + a + a + a + a + a + a + a + a + a + a + a + a + a + a + a + a + a + a + a + a + a + a + a + a + a + a + a + a + a + a + a + a + a + a + a + a + a + a + a + a + a + a + a + a + a + a + a + a + a + a + a + a + a + a + a + a + a + a + a + a + a + a + a + a + a + a + a + a + a + a + a + a + a + a + a + a + a + a + a + a + a + a + a + a + a + a + a + a + a + a + a + a + a + a + a + a + a + a + a + a + a + a + a + a + a + a + a + a + a + a + a + a + a + a + a + a + a + a + a + a + a + a + a + a + a + a + a + a + a + a + a + a + a + a + a + a + a + a + a + a + a + a + a + a + a + a + a + a + a + a + a + a + a + a + a + a + a + a + a + a + a + a + a + a + a + a + a + a + a + a + a; }
+}
+
+contract After {
+    uint256 public last;
+    function mark(uint256 a, uint256 b) public { require(a > 0 && b > 0, "both"); last = a + b; last++; }
+}
+
+function freeAfter(uint256 x) pure returns (uint256) { return x * 8; }
